@@ -287,3 +287,54 @@ func verifStrictJSON(b []byte) bool {
 	ws()
 	return i == len(b)
 }
+
+// C15.H2b: lines longer than split_event_size are handed on in several pieces: the pieces of a line,
+// in order, are exactly the line; every piece is a well-formed event.
+func VerifH_C15_k8sSplit() {
+	K := 1 + vf.Choose("events", vf.Param("K", 4))
+	split := []int{3, 5}[vf.Choose("split-event-size", 2)]
+	p := &MultilineAction{}
+	params := &pipeline.ActionPluginParams{Controller: &verifCtl{},
+		PluginDefaultParams: pipeline.PluginDefaultParams{PipelineSettings: &pipeline.Settings{}}}
+	if !vf.Symbolic() {
+		params.Logger = zap.NewNop().Sugar()
+	}
+	p.Start(&Config{SplitEventSize: predictionLookahead + split}, params)
+	run, pieces := "", ""
+	for i := 0; i < K; i++ {
+		txt := verifChunks[vf.Choose("chunk", len(verifChunks))]
+		isEnd := vf.Choose("ends-line", 2) == 1
+		if isEnd {
+			txt += `\n`
+		}
+		root := insaneJSON.Spawn()
+		if err := root.DecodeString(`{"log":"` + txt + `",` + verifMetaFields + `}`); err != nil {
+			vf.Fail("bad-template")
+			return
+		}
+		ev := &pipeline.Event{Root: root, Size: len(txt)}
+		res := p.Do(ev)
+		run += txt
+		vf.Assert(res == pipeline.ActionPass || res == pipeline.ActionCollapse, "defined-result")
+		if res == pipeline.ActionPass {
+			got := root.Dig("log").AppendEscapedString(nil)
+			if len(got) >= 2 {
+				pieces += string(got[1 : len(got)-1])
+			}
+			out := root.EncodeToString()
+			vf.Assert(verifStrictJSON([]byte(out)), "piece-is-strictly-valid-json")
+			if !isEnd {
+				vf.Reach("line-split")
+			}
+		}
+		if isEnd {
+			vf.Assert(res == pipeline.ActionPass, "line-end-passes")
+			if vf.Param("twin", 0) == 1 {
+				vf.Assert(pieces != run, "pieces-in-order-are-the-line")
+			} else {
+				vf.Assert(pieces == run, "pieces-in-order-are-the-line")
+			}
+			run, pieces = "", ""
+		}
+	}
+}
